@@ -1,6 +1,6 @@
 From Coq Require Import ZArith List Bool Reals Lra.
 From Flocq Require Import Core BinarySingleNaN.
-Require Import GV.FloatBase GV.FloatLemmas GV.AngleM GV.AngleProofs GV.GeonumM GV.GeonumProofs GV.TraitsM.
+Require Import GV.FloatBase GV.FloatLemmas GV.AngleM GV.AngleProofs GV.GeonumM GV.GeonumProofs GV.TraitsM GV.NewProofs GV.CtorProofs GV.PiBounds GV.TrigProofs GV.DotValue GV.DistValue.
 Open Scope R_scope.
 Require Import GV.Properties.C06.
 Check C06_sub_is_add_neg : forall (L : libm) a b,
@@ -26,3 +26,15 @@ Check C06_paths : forall (L : libm) a b,
 Print Assumptions C06_paths.
 Check C06_radicand_total : forall x, nonneg_or_inf (fsqrt (fmax x zero)).
 Print Assumptions C06_radicand_total.
+Check C06_mag_value : forall (L : libm) (u : R) a b, cos_acc L u -> u <= / 1000 ->
+  canonp (rem (ang a)) -> canonp (rem (ang b)) ->
+  aeqb (ang a) (ang b) = false ->
+  aeqb (add_vv (ang a) (new one one)) (ang b) || aeqb (add_vv (ang b) (new one one)) (ang a) = false ->
+  fin (gadd_rad L a b) ->
+  let S := R_ (mag a) * R_ (mag a) + R_ (mag b) * R_ (mag b) in
+  let D := S + 2 * R_ (mag a) * R_ (mag b) * cos (dir (ang b) - dir (ang a)) in
+  let Bnd := S * (u + 1 / 100000000000000) + 10 * bpow radix2 (-1075) in
+  0 <= D /\
+  Rabs (R_ (mag (gadd_vv L a b)) - sqrt D)
+    <= sqrt Bnd * (1 + / 9007199254740992) + / 9007199254740992 * sqrt D + bpow radix2 (-1075).
+Print Assumptions C06_mag_value.
